@@ -208,6 +208,18 @@ def spec_builtin(I, st, name, args, kwargs, node):
         for d in args[1:]:
             tot = tot - spec_builtin(I, st, "at", [d, kv], {}, node).term
         return Val(base, (z3.K(sort_of(base[1]), TRUE), st.deflam([k], tot)))
+    if name == "msum":
+        # msum(S, lambda k=Sort: term): finite sum of term(k) over the keys in S
+        S = args[0]
+        dom = I.dom_of(st, S)
+        lam = node.args[1]
+        if not isinstance(lam, ast.Lambda):
+            raise Unsupported("msum needs a lambda")
+        F = _lam_array(I, st, lam)
+        return mkreal(prelude.msum(dom, F))
+    if name in ("sum_axiom_bound", "sum_axiom_eq", "sum_axiom_update", "sum_axiom_remove", "sum_axiom_insert", "sum_axiom_empty",
+                "sum_axiom_add"):
+        return mkbool(_sum_axiom(I, st, name, args, node))
     if name == "nonempty":
         m = args[0]
         d = I.dom_of(st, m)
@@ -270,3 +282,81 @@ def unchanged_obj(I, st, o, content_only=False, skip=(), only=None):
     if not z3.is_false(o.none):
         return z3.Or(o.none, r)
     return r
+
+
+def _lam_array(I, st, lam):
+    """lambda k=Sort: term  ->  array K -> Real defined pointwise (deflam)"""
+    from .calls import Frame
+    fr = Frame(st.frame.func, st.frame.module, parent=st.frame)
+    fr.spec_env = st.frame.spec_env
+    a = lam.args.args[0]
+    ty = REG.parse(ast.unparse(lam.args.defaults[0]))
+    k = z3.FreshConst(sort_of(ty), a.arg)
+    fr.vars[a.arg] = Val(ty, k)
+    st.frames.append(fr)
+    st.bound_stack.append(k)
+    st.spec_side.append([])
+    try:
+        body = I.eval(st, lam.body)
+    finally:
+        st.frames.pop()
+        st.bound_stack.pop()
+        facts = st.spec_side.pop()
+    from .solve import mentions
+    for f in facts:
+        if mentions(f, [k]):
+            f = z3.ForAll([k], f)
+        if st.spec_side:
+            st.spec_side[-1].append(f)
+        else:
+            st.assume(f)
+    return st.deflam([k], I.to_real(body))
+
+
+def _sum_axiom(I, st, name, args, node):
+    """instances of the finite-sum axioms (each is a valid formula: AX-SUM-*, proved in lemmas/Axioms.lean)"""
+    def arr(i):
+        return _lam_array(I, st, node.args[i])
+
+    def dom(i):
+        return I.dom_of(st, args[i])
+    if name == "sum_axiom_empty":
+        F = arr(1)
+        return z3.Implies(dom(0) == z3.K(dom(0).sort().domain(), FALSE), prelude.msum(dom(0), F) == 0)
+    if name == "sum_axiom_bound":
+        # sum_axiom_bound(S, lambda.., k): all terms >= 0 and k in S  =>  0 <= term(k) <= sum
+        S, F, k = dom(0), arr(1), args[2].term
+        j = z3.FreshConst(k.sort(), "j")
+        return z3.Implies(z3.And(z3.ForAll([j], z3.Implies(z3.Select(S, j), z3.Select(F, j) >= 0)), z3.Select(S, k)),
+                          z3.And(z3.Select(F, k) <= prelude.msum(S, F), prelude.msum(S, F) >= 0))
+    if name == "sum_axiom_eq":
+        # sum_axiom_eq(S1, lam1, S2, lam2): same keys, same terms on them  =>  same sum
+        S1, F1, S2, F2 = dom(0), arr(1), dom(2), arr(3)
+        j = z3.FreshConst(S1.sort().domain(), "j")
+        return z3.Implies(z3.ForAll([j], z3.And(z3.Select(S1, j) == z3.Select(S2, j),
+                                               z3.Implies(z3.Select(S1, j), z3.Select(F1, j) == z3.Select(F2, j)))),
+                          prelude.msum(S1, F1) == prelude.msum(S2, F2))
+    if name == "sum_axiom_update":
+        # sum_axiom_update(S1, lam1, S2, lam2, k): same keys, terms agree except at k in S  =>  sum2 = sum1 - t1(k) + t2(k)
+        S1, F1, S2, F2, k = dom(0), arr(1), dom(2), arr(3), args[4].term
+        j = z3.FreshConst(k.sort(), "j")
+        return z3.Implies(z3.And(z3.Select(S1, k),
+                                 z3.ForAll([j], z3.And(z3.Select(S1, j) == z3.Select(S2, j),
+                                                       z3.Implies(z3.And(z3.Select(S1, j), j != k), z3.Select(F1, j) == z3.Select(F2, j))))),
+                          prelude.msum(S2, F2) == prelude.msum(S1, F1) - z3.Select(F1, k) + z3.Select(F2, k))
+    if name == "sum_axiom_remove":
+        # sum_axiom_remove(S1, lam1, S2, lam2, k): S2 = S1 \ {k}, k in S1, terms agree on S2  =>  sum2 = sum1 - t1(k)
+        S1, F1, S2, F2, k = dom(0), arr(1), dom(2), arr(3), args[4].term
+        j = z3.FreshConst(k.sort(), "j")
+        return z3.Implies(z3.And(z3.Select(S1, k), z3.Not(z3.Select(S2, k)),
+                                 z3.ForAll([j], z3.Implies(j != k, z3.And(z3.Select(S1, j) == z3.Select(S2, j),
+                                                                          z3.Implies(z3.Select(S1, j), z3.Select(F1, j) == z3.Select(F2, j)))))),
+                          prelude.msum(S2, F2) == prelude.msum(S1, F1) - z3.Select(F1, k))
+    if name == "sum_axiom_insert":
+        S1, F1, S2, F2, k = dom(0), arr(1), dom(2), arr(3), args[4].term
+        j = z3.FreshConst(k.sort(), "j")
+        return z3.Implies(z3.And(z3.Not(z3.Select(S1, k)), z3.Select(S2, k),
+                                 z3.ForAll([j], z3.Implies(j != k, z3.And(z3.Select(S1, j) == z3.Select(S2, j),
+                                                                          z3.Implies(z3.Select(S1, j), z3.Select(F1, j) == z3.Select(F2, j)))))),
+                          prelude.msum(S2, F2) == prelude.msum(S1, F1) + z3.Select(F2, k))
+    raise Unsupported(name)
